@@ -104,14 +104,48 @@ def check(v, tier, opts):
     # failing assertion did reproduce natively (it is in v.violations), the stub harness failure is explained by it.
     reproduced = " ".join(k for k, _, _ in v.violations)
     keep = []
+    searched = {}
+    import native_search
     for why in v.inconclusive:
         hit = explained_by(why, reproduced)
         if hit:
             log("STUB-HARNESS-FAILS property=C20 " + why.split(" but ")[0] + " — decided by Kani under the oracle stubs, not "
                 "replayable natively; same defect reproduced natively by " + hit)
+            continue
+        m = re.search(r"harness (c20::(c20_(half_life|winsorize)\w+)): failed checks (\[.*?\]) but", why)
+        if m and STUB_HARNESS.search(m.group(2)):
+            # the solver's verdict under the oracle stubs is confirmed by a native witness search on the real function
+            fam = m.group(3)
+            if fam not in searched:
+                searched[fam] = native_search.search_half_life() if fam == "half_life" else native_search.search_winsorize()
+            case = searched[fam]
+            if case is not None:
+                case.update({"property": "C20", "failed_stub_harness": m.group(2), "failed_checks": m.group(4)})
+                path = native_search.save(case, "native_witness_" + fam)
+                key = f"{m.group(2)}::{m.group(4)[:120]}"
+                v.failure(key, path, "oracle-stub harness fails under Kani; native witness on the real function: " + case["what"])
+                continue
+            keep.append(why + " — native witness search (seeded, ~4000 inputs) found no concrete reproduction")
         else:
-            keep.append(why + " — no native witness harness covers this" if STUB_HARNESS.search(why) else why)
+            keep.append(why)
     v.inconclusive = keep
     return v.finish(RULE)
+
+
+def replay(path):
+    if path.endswith(".json"):
+        import native_search
+        bad, got = native_search.replay_case(path)
+        log(("REPRODUCED " if bad else "passes ") + f"{path}: {bad or got}")
+        return 1 if bad else 0
+    import importlib
+    chk = importlib.import_module("check") if False else None
+    feats = "c20,playback"
+    res = kani_engine.run_playback_file(path, feats)
+    n = 0
+    for t, panicked, msg in res:
+        log(f"{'REPRODUCED' if panicked else 'passes    '} {t}: {msg[:300]}")
+        n += panicked
+    return 1 if n else 0
 
 READY = True
